@@ -1,4 +1,5 @@
 import Clover.Generated.Facts
+import Clover.Proofs.Translated
 import Clover.Proofs.ScanExact
 import Clover.Proofs.RangeSem
 /-! # C17 — index range scans return exactly the in-range entries, in order
@@ -77,21 +78,26 @@ theorem isEmpty_model (hrs : Dom numOK r.start) (hre : Dom numOK r.stop) : r.isE
     meets the hypotheses -/
 example : ∀ e ∈ ([] : KVS), ∀ t, lexLt e.1 (Keys.idxPrefix [0x61] [0x78] ++ t) = true := by simp
 
+/-- (translated, regenerated from the source on every run) **`Range.IsEmpty`, `Range.IsNil` and `Range.Intersect` as the
+    current source writes them** - translated statement by statement into `Generated/Translated.lean` - compute, for every
+    range, what the model's definitions (the ones the theorems above are about) compute. -/
+theorem source_ranges_are_the_models (r r2 : Gen.GRange) :
+    Gen.Range_IsEmpty r = (Translated.toModel r).isEmpty ∧ Gen.Range_IsNil r = (Translated.toModel r).isNilR ∧
+    Translated.toModel (Gen.Range_Intersect r r2) = (Translated.toModel r).intersect (Translated.toModel r2) :=
+  ⟨Translated.range_isEmpty_eq r, Translated.range_isNil_eq r, Translated.range_intersect_eq r r2⟩
+
 end CV.Props.C17
 
 -- SOURCE-TEXT-BEGIN (generated by tools/mk_source_theorems.py; do not edit by hand)
 namespace CV.Props.C17
 
 /-- (facts, regenerated from the source on every run) **The source text the model transcribes is the text of the
-    current source**: the bodies (comments and layout removed) of the 7 functions the model behind C17 was written from and
+    current source**: the bodies (comments and layout removed) of the 4 functions the model behind C17 was written from and
     validated against.  Any edit of one of them breaks this theorem at build time; the check then searches with the
     property's own oracles for a failing input, and reports `no-failing-input-found` if it finds none: the model then
     has to be re-validated against the new text (and this block regenerated). -/
 theorem source_decision_logic : CV.Facts.logicC17 = [
   "index..extractDocId: { if len(key) < 36 { panic(string(key)) } return key[:len(key)-36], key[len(key)-36:] }", 
-  "index.Range.Intersect: { intersection := &Range{ Start: r.Start, End: r.End, StartIncluded: r.StartIncluded, EndIncluded: r.EndIncluded, } res := internal.Compare(r2.Start, intersection.Start) if res > 0 { intersection.Start = r2.Start intersection.StartIncluded = r2.StartIncluded } else if res == 0 { intersection.StartIncluded = intersection.StartIncluded && r2.StartIncluded } else if intersection.Start == nil { intersection.Start = r2.Start intersection.StartIncluded = r2.StartIncluded } res = internal.Compare(r2.End, intersection.End) if res < 0 { intersection.End = r2.End intersection.EndIncluded = r2.EndIncluded } else if res == 0 { intersection.EndIncluded = intersection.EndIncluded && r2.EndIncluded } else if intersection.End == nil { intersection.End = r2.End intersection.EndIncluded = r2.EndIncluded } return intersection }", 
-  "index.Range.IsEmpty: { if (r.Start == nil && !r.StartIncluded && r.End != nil) || (r.End == nil && !r.EndIncluded && r.Start != nil) { return false } res := internal.Compare(r.Start, r.End) return (res > 0) || (res == 0 && !r.StartIncluded && !r.EndIncluded) }", 
-  "index.Range.IsNil: { return r.Start == nil && r.End == nil && r.StartIncluded && r.EndIncluded }", 
   "index.rangeIndex.Iterate: { opts := badger.DefaultIteratorOptions opts.Reverse = reverse it, err := idx.tx.Cursor(!reverse) if err != nil { return err } defer it.Close() prefix := idx.getKeyPrefix() seekPrefix := prefix if reverse { seekPrefix = append(seekPrefix, 255) } it.Seek(seekPrefix) for ; it.Valid(); it.Next() { item, err := it.Item() if err != nil { return err } key := item.Key if !bytes.HasPrefix(key, prefix) { return nil } _, docId := extractDocId(key) if err := onValue(string(docId)); err != nil { if errors.Is(err, internal.ErrStopIteration) { return nil } return err } } return nil }", 
   "index.rangeIndex.IterateRange: { if vRange.IsEmpty() { return nil } startKey, endKey, err := idx.encodeRange(vRange) if err != nil { return err } seekPrefix := startKey if reverse { seekPrefix = nil if endKey != nil { seekPrefix = append(append([]byte{}, endKey...), 255) } } if seekPrefix == nil { seekPrefix = idx.getKeyPrefix() if reverse { seekPrefix = append(seekPrefix, 255) } } cursor, err := idx.tx.Cursor(!reverse) if err != nil { return err } defer cursor.Close() cursor.Seek(seekPrefix) if !reverse { if vRange.Start != nil && !vRange.StartIncluded { for ; cursor.Valid(); cursor.Next() { item, err := cursor.Item() if err != nil { return err } if !bytes.HasPrefix(item.Key, startKey) { break } } } } else { if vRange.End != nil && !vRange.EndIncluded { for ; cursor.Valid(); cursor.Next() { item, err := cursor.Item() if err != nil { return err } if !bytes.HasPrefix(item.Key, endKey) { break } } } } prefix := idx.getKeyPrefix() for ; cursor.Valid(); cursor.Next() { item, err := cursor.Item() if err != nil { return err } key := item.Key if !bytes.HasPrefix(key, prefix) { return nil } p, docId := extractDocId(key) if !reverse { endCmp := bytes.Compare(p, endKey) if (vRange.End != nil || vRange.IsNil()) && (endCmp > 0 || (endCmp == 0 && !vRange.EndIncluded)) { break } } else { startCmp := bytes.Compare(p, startKey) if (vRange.Start != nil || vRange.IsNil()) && (startCmp < 0 || (startCmp == 0 && !vRange.StartIncluded)) { break } } if err := onValue(string(docId)); err != nil { if errors.Is(err, internal.ErrStopIteration) { return nil } return err } } return nil }", 
   "index.rangeIndex.encodeRange: { var err error var startKey, endKey []byte if vRange.IsNil() || vRange.Start != nil { startKey, err = idx.getKey(vRange.Start) if err != nil { return nil, nil, err } } if vRange.IsNil() || vRange.End != nil { var err error endKey, err = idx.getKey(vRange.End) if err != nil { return nil, nil, err } } return startKey, endKey, nil }"] := by rfl
